@@ -4,7 +4,7 @@ namespace Richchk
 
 theorem readInt_total {w : Nat} {bs : Bytes} (h : w ≤ bs.length) :
     readInt w bs = .ok (leVal (bs.take w), bs.drop w) := by
-  unfold readInt; simp; omega
+  rw [readInt_eq]; simp; omega
 
 theorem readInts_total {w n : Nat} {bs : Bytes} (h : w * n ≤ bs.length) :
     ∃ vs, readInts w n bs = .ok (vs, bs.drop (w * n)) := by
